@@ -44,6 +44,9 @@ type Pkg struct {
 type World struct {
 	P   []*Pkg
 	Cur int // current package (index), -1 = the neutral package
+	// Absent: packages that do not exist yet; a defpkg step creates one (Q = bit mask of the packages it uses,
+	// N = the exported names separated by commas)
+	Absent map[int]bool
 }
 
 // New makes n empty packages that use nothing (but CL).
@@ -53,6 +56,20 @@ func New(n int) *World {
 		w.P = append(w.P, &Pkg{Def: map[string]*Cell{}, Exp: map[string]int{}})
 	}
 	return w
+}
+
+// SplitNames splits the comma separated names of a defpkg step.
+func SplitNames(s string) (out []string) {
+	start := 0
+	for i := 0; i <= len(s); i++ {
+		if i == len(s) || s[i] == ',' {
+			if start < i {
+				out = append(out, s[start:i])
+			}
+			start = i + 1
+		}
+	}
+	return
 }
 
 // IsFn tells the name space of a name: f, g are functions, everything else a variable.
@@ -219,6 +236,31 @@ func (w *World) apply(op Op, token string) bool {
 		return false
 	}
 	pk := w.P[op.A]
+	if op.K == "defpkg" {
+		if !w.Absent[op.A] {
+			return false
+		}
+		for q := range w.P {
+			if op.Q&(1<<q) != 0 {
+				if q == op.A || w.Absent[q] {
+					return false
+				}
+			}
+		}
+		delete(w.Absent, op.A)
+		for q := range w.P {
+			if op.Q&(1<<q) != 0 {
+				pk.Uses = append(pk.Uses, q)
+			}
+		}
+		for _, n := range SplitNames(op.N) {
+			pk.Exp[n] = Yes
+		}
+		return true
+	}
+	if w.Absent[op.A] || ((op.K == "use" || op.K == "unuse") && w.Absent[op.Q]) {
+		return false
+	}
 	switchCur := func() {
 		if !op.Arg {
 			w.Cur = op.A
